@@ -2,8 +2,9 @@
 import core
 import ppar
 import scen_fifo
+import scen_lane
 
-PROPS = ['Props/C01.lean']
+PROPS = ['Props/C01.lean', 'Props/Lane.lean', 'Legacy/LaneMultiWriter.lean']
 
 
 def keyfn(case, res, m):
@@ -16,19 +17,27 @@ def run(chk):
     core.e1_flow(chk, 'scen_fifo', 'fifo', {'C01'},
                  lambda rng: scen_fifo.gen_case(rng, chk.tier, rng.choice(['order', 'order', '', 'stop'])),
                  n, keyfn=keyfn)
+    # the hand-off queue itself: the real SingleLane, one writer + one reader, against Model/Lane.lean
+    core.e1_flow(chk, 'scen_lane', 'lane', {'C01'},
+                 lambda rng: scen_lane.gen_case(rng, chk.tier, rng.choice(['order', 'order', '', 'bound'])),
+                 800 if chk.tier == 'quick' else 12000, keyfn=keyfn)
     ppar.sample(chk, 'C01', 10 if chk.tier == 'quick' else 200)
     chk.cov['rule'] = ('cases = random (kind, n, cap, conc, flags, failure plan, stop position, service durations, '
                        'chooser, seed) run on the real fifo_stream/Stream.parmap under the deterministic scheduler; '
-                       'non-trivial = n >= 2 elements and >= 1 context switch; distinct = distinct (case, event trace)')
+                       'non-trivial = n >= 2 elements and >= 1 context switch; distinct = distinct (case, event trace); '
+                       'plus (scen_lane) random (maxsize 0..3, call sequences of one writer and one reader thread, each call '
+                       'blocking / non-blocking / timed, think-time gaps, Condition flavour, chooser with early timer expiry, seed) '
+                       'run on the real SingleLane; non-trivial = >= 2 calls and >= 1 context switch')
     chk.trusted += TRUSTED
     chk.assumptions += ASSUMPTIONS
 
 
 TRUSTED = [
+    "SingleLane (mpservice/_queues.py) is no longer assumed: lean/MpsVerif/Model/Lane.lean models it at the granularity of its lock operations, Props/Lane.lean proves FIFO / bound / no underflow / no lost wake-up / outcome table and the refinement to the atomic bounded FIFO that Model/Fifo.lean and Model/Buffer.lean use (single writer + single reader, all maxsize, all interleavings), tied to /repo by trace validation (drv lane) of the real SingleLane over the interpreter's own threading.Condition source on every run. What remains assumed there: threading.Lock is mutually exclusive; Condition.wait atomically queues the waiter and releases the mutex and re-acquires it before returning; notify() wakes at most one waiter that is in the list at that moment and is not remembered otherwise; no spurious wake-ups (CPython's Condition blocks on a private lock that only notify() releases)",
     'Lean 4.33.0 kernel; axioms per theorem as listed in coverage.obligation_list (subset of propext, Classical.choice, Quot.sound)',
     'hand-written model lean/MpsVerif/Model/Fifo.lean, tied to /repo by trace validation (drv fifo, Core.Val.validate_sound) on every run',
     'deterministic scheduler harness/detsched.py (replaces threading primitives, SimpleQueue, clock)',
-    'modelled not verified: SingleLane is FIFO with maxsize slots; ThreadPoolExecutor runs <= max_workers calls and cancel() succeeds only before pick-up; Future.result() returns the call\'s own outcome',
+    'modelled not verified: ThreadPoolExecutor runs <= max_workers calls and cancel() succeeds only before pick-up; Future.result() returns the call\'s own outcome',
     "executor='process': not driven by the scheduler; sampled on real pool processes under the OS schedule (harness/ppar.py, monitors only), otherwise covered by the theorem (the Fifo model does not depend on the kind of executor)",
 ]
 ASSUMPTIONS = [
@@ -46,7 +55,7 @@ def replay(chk, data):
             print(f'VIOLATION property={chk.prop} replay=(replayed)')
             return 1
         return 0
-    res = chk.run_cases('scen_fifo', [data['case']])
+    res = chk.run_cases('scen_lane' if data['case'].get('kind') in ('lane', 'multi') else 'scen_fifo', [data['case']])
     case, r = res[0]
     hits = [m for m in r['monitors'] if m['prop'] == chk.prop]
     print(json.dumps(dict(monitors=r['monitors'], out=r.get('out'), end=r.get('end')), default=str)[:2000])
